@@ -17,8 +17,10 @@ import (
 	"os"
 	"path"
 	"path/filepath"
+	"runtime"
 	"sort"
 	"strings"
+	"time"
 
 	"github.com/martian-lang/martian/martian/core"
 	"github.com/martian-lang/martian/martian/syntax"
@@ -103,6 +105,8 @@ type TARun struct {
 	Written    map[string]string // file path -> content, every file a stage wrote
 	insideStep bool
 	Tracer     *SchedTracer
+	callables  map[string]string
+	LaunchHook func(job *TAJob)
 	stalls     int
 }
 
@@ -182,7 +186,7 @@ func (r *TARun) Close() {
 
 func (r *TARun) onExec(j *core.VerifJob) {
 	job := &TAJob{VerifJob: *j, Key: jobKey(j.Fqname, j.ShellName), Seq: len(r.Events), Incarnation: r.Inc}
-	job.StageName = stageOfFqname(j.Fqname)
+	job.StageName = r.stageOf(j.Fqname)
 	r.Launches[job.Key]++
 	if b, err := os.ReadFile(path.Join(j.MetadataPath, "_args")); err == nil {
 		job.Args = json.RawMessage(b)
@@ -203,6 +207,9 @@ func (r *TARun) onExec(j *core.VerifJob) {
 	}
 	r.Pending = append(r.Pending, job)
 	r.Jobs = append(r.Jobs, job)
+	if r.LaunchHook != nil {
+		r.LaunchHook(job)
+	}
 	if r.Opts.InlineFinish > 0 && r.Rng.Float64() < r.Opts.InlineFinish {
 		// a very fast job: finishes while the scheduler is still inside StepNodes
 		r.finishJob(job)
@@ -212,6 +219,25 @@ func (r *TARun) onExec(j *core.VerifJob) {
 // journal name without the uniquifier: ID-relative fqname (+ .split/.join role)
 func jobKey(fqname, shell string) string {
 	return fqname + "." + shell
+}
+
+// stageOf maps a job's fqname to the name of the stage it runs (the call id
+// in the fqname may be an alias).
+func (r *TARun) stageOf(fq string) string {
+	if r.callables == nil && r.ps != nil {
+		r.callables = map[string]string{}
+		for _, n := range r.ps.VerifNodes() {
+			r.callables[n.Fqname] = n.Callable
+		}
+	}
+	node := fq
+	if i := strings.Index(fq, ".fork"); i >= 0 {
+		node = fq[:i]
+	}
+	if c, ok := r.callables[node]; ok {
+		return c
+	}
+	return stageOfFqname(fq)
 }
 
 func stageOfFqname(fq string) string {
@@ -258,6 +284,12 @@ func (r *TARun) startJob(job *TAJob) {
 	}
 	job.Started = true
 	md := r.jobMeta(job)
+	// the job manager removes _queued_locally as soon as the process has started
+	if job.Metadata != nil && job.Incarnation == r.Inc {
+		job.Metadata.VerifRemove(core.QueuedLocally)
+	} else {
+		os.Remove(path.Join(job.MetadataPath, "_queued_locally"))
+	}
 	md.WriteRaw(core.LogFile, "fake job log\n")
 	var ji map[string]interface{}
 	if b, err := os.ReadFile(path.Join(job.MetadataPath, "_jobinfo")); err == nil {
@@ -690,6 +722,15 @@ func (r *TARun) Restart() error {
 
 // Run drives the pipestance to completion/failure under the PRNG schedule.
 func (r *TARun) Run() {
+	defer func() {
+		if e := recover(); e != nil {
+			r.Final = fmt.Sprintf("panic:%v", e)
+			buf := make([]byte, 4096)
+			buf = buf[:runtime.Stack(buf, false)]
+			r.ErrMsg = string(buf)
+			r.log("panic", "", r.Final)
+		}
+	}()
 	idle := 0
 	for len(r.Events) < r.Opts.MaxEvents {
 		if r.Opts.CrashAt != nil && r.Opts.CrashAt[len(r.Events)] {
@@ -749,4 +790,23 @@ func (r *TARun) TopOuts() (json.RawMessage, error) {
 	top := r.Ast.Call.Id
 	b, err := os.ReadFile(path.Join(r.PsDir, top, "fork0", "_outs"))
 	return compactJSON(b), err
+}
+
+// RunTimed runs the pipestance with a watchdog; a run that does not return in
+// time is reported as Final="hang" with a goroutine dump in ErrMsg (the run's
+// goroutine is abandoned).
+func (r *TARun) RunTimed(d time.Duration) {
+	done := make(chan struct{})
+	go func() {
+		defer close(done)
+		r.Run()
+	}()
+	select {
+	case <-done:
+	case <-time.After(d):
+		buf := make([]byte, 1<<16)
+		buf = buf[:runtime.Stack(buf, true)]
+		r.Final = "hang"
+		r.ErrMsg = string(buf)
+	}
 }
